@@ -159,6 +159,11 @@ type TraitDesc struct {
 func (td TraitDesc) InstanceOf(v Value) *TraitInstance {
 	for i := range td.Traits {
 		if td.Traits[i].OwningValue.Name == v.Name {
+			if td.Traits[i].repeatsParseKey {
+				// another parsable trait of v already contributes this very constant to v's
+				// case in the Parse switch; listing it twice would not compile.
+				return nil
+			}
 			return &td.Traits[i]
 		}
 	}
@@ -258,6 +263,10 @@ type TraitInstance struct {
 	OwningValue  Value
 	value        string
 	variableName string // optional; will be used if exists.
+
+	// repeatsParseKey is set when an earlier parsable trait of the same enum value
+	// is written with the same constant text (see validateParsableTraits).
+	repeatsParseKey bool
 }
 
 // Value safely returns a reference to a constant OR an absolute value.
